@@ -29,6 +29,7 @@ Engine *findEngine(const QString &p) { return registry().value(p, nullptr); }
 QStringList engineIds() { return registry().keys(); }
 
 void resetStanzaIds();   // net/testclient.cpp
+void resetDns();         // net/simdns.cpp
 
 void resetWorld(quint64 seed)
 {
@@ -37,6 +38,7 @@ void resetWorld(quint64 seed)
     g_libRng = Prng(derive(seed, "lib"));
     g_libRngDraws = 0;
     resetStanzaIds();
+    resetDns();
 }
 
 }  // namespace sim
